@@ -587,7 +587,9 @@ Variable f : St -> R -> St * R.
 
 (** For ANY (stateful) function: with [ya < 0 < yb] and the invariant [b - a <= 2 se] the loop ends
     within [fuel] iterations as soon as [se <= eps * 2^fuel] (each iteration halves [se] and the loop
-    stops once [b - a <= 2 eps]); the result lies in the initial bracket. *)
+    stops once [b - a <= 2 eps]); the result lies in the initial bracket.  [Q] is any property of the
+    observed signs that the caller wants to track: the final answer is an exact zero of the observed value
+    or the midpoint of a bracket [a', b'] of width <= 2 eps whose ends satisfy it. *)
 Lemma itp_loop_st_spec (eps k1 : R) :
   0 < eps -> 0 <= k1 ->
   forall (fuel : nat) (st : St) (iters : Z) (a b ya yb se : R),
@@ -603,6 +605,8 @@ Proof.
     + exists (/ 2 * (a + b)), st, iters. split; [reflexivity|]. split; [lra | lia].
   - destruct (Rltb_spec (2 * eps) (b - a)) as [Hlt|Hge].
     + assert (Hab' : a < b) by lra.
+      destruct (Rleb_spec (/ 2 * (a + b)) a) as [Hc1|_]; [lra|].
+      destruct (Rleb_spec b (/ 2 * (a + b))) as [Hc2|_]; [lra|]. cbn [orb].
       destruct (itp_point_spec a b k1 ya yb se Hab' Hya Hyb Hk1 Hw) as [[Hxa Hxb] [Hwa Hwb]].
       set (x := itp_point a b k1 ya yb se) in *.
       destruct (f st x) as [st' y].
@@ -679,28 +683,27 @@ Proof.
   - destruct extra; [exact He|]. cbn [Nat.add itp_loop_st] in *. revert He.
     destruct (@fltb R RS _ _); intros He; [discriminate | exact He].
   - cbn [Nat.add itp_loop_st] in *. revert He. destruct (@fltb R RS _ _); intros He; [|exact He].
+    revert He. destruct (orb _ _); intros He; [exact He|].
     revert He. destruct (f st (itp_point a b k1 ya yb se)) as [st1 y].
     destruct (@fltb R RS f0 y); intros He; [apply IH; exact He|]. revert He.
     destruct (@fltb R RS y f0); intros He; [apply IH; exact He | exact He].
 Qed.
 
-(** solve_itp: unless [nmax >= 64] (the shift [1u64 << nmax] overflows: a panic with overflow checks,
-    the documented precondition "epsilon must be larger than 2^-63 times b - a"), the loop ends within
-    [nmax] iterations and the result lies in [a, b] — for every function [f], continuous or not. *)
+(** solve_itp (as repaired by commit 75101ed: nmax saturating, 2^min(nmax,1023) built exactly): for
+    nmax = n0 + n1_2 <= 1023 the loop ends within nmax entries and the result lies in [a, b] — for every
+    function [f], continuous or not.  (Before the repair [1u64 << nmax] overflowed for nmax >= 64.) *)
 Lemma solve_itp_st_spec (fuel : nat) (st : St) (a b eps : R) (n0 : Z) (k1 ya yb : R) :
-  0 < eps -> a < b -> ya < 0 -> 0 < yb -> 0 <= k1 -> (0 <= n0)%Z -> (64 <= fuel)%nat ->
+  0 < eps -> a < b -> ya < 0 -> 0 < yb -> 0 <= k1 -> (0 <= n0)%Z ->
   let nmax := (n0 + itp_n1_2 a b eps)%Z in
-  match solve_itp_st f fuel st a b eps n0 k1 ya yb with
-  | None => (64 <= nmax)%Z
-  | Some (x, _, n) => a <= x <= b /\ (0 <= n <= nmax)%Z /\ (nmax < 64)%Z
-  end.
+  (nmax <= 1023)%Z -> (nmax <= Z.of_nat fuel)%Z ->
+  exists x st' n,
+    solve_itp_st f fuel st a b eps n0 k1 ya yb = Some (x, st', n) /\ a <= x <= b /\ (0 <= n <= nmax)%Z.
 Proof.
-  intros Heps Hab Hya Hyb Hk1 Hn0 Hfuel nmax. unfold solve_itp_st. fold nmax.
-  destruct (Z.leb_spec 64 nmax) as [Hbig|Hsmall]; [exact Hbig|].
+  intros Heps Hab Hya Hyb Hk1 Hn0 nmax Hsmall Hfuel. unfold solve_itp_st. fold nmax.
   destruct (itp_n1_2_bound a b eps Heps Hab) as [Hn12 Hw].
   assert (Hnm : (0 <= nmax)%Z) by (unfold nmax; lia).
+  replace (Z.min (Z.min nmax (2 ^ 64 - 1)) 1023) with nmax by lia.
   change (@fmul R RS eps (@fpowi R RS f2 nmax)) with (eps * powerRZ 2 nmax).
-  (* run the loop with exactly nmax units of fuel, then lift to any larger fuel *)
   assert (Hw' : b - a <= 2 * (eps * powerRZ 2 nmax)).
   { assert (Hp : powerRZ 2 (itp_n1_2 a b eps) <= powerRZ 2 nmax) by (apply powerRZ_2_mono; unfold nmax; lia).
     apply (Rmult_le_compat_l eps) in Hp; lra. }
@@ -709,59 +712,58 @@ Proof.
   destruct (itp_loop_st_spec St f eps k1 Heps Hk1 (Z.to_nat nmax) st 0%Z a b ya yb (eps * powerRZ 2 nmax)
               ltac:(lra) Hya Hyb Hw' Hse) as [x [st' [n [He [Hx Hn]]]]].
   pose proof (itp_loop_st_fuel_mono eps k1 _ _ _ _ _ _ _ _ _ He) as Hmono.
+  exists x, st', n.
   replace fuel with (Z.to_nat nmax + (fuel - Z.to_nat nmax))%nat by lia.
-  rewrite Hmono. split; [exact Hx|]. split; [lia | exact Hsmall].
+  rewrite Hmono. split; [reflexivity|]. split; [exact Hx | lia].
 Qed.
 End ITP_stateful_solve.
 
 (** ** inv_arclen (provided method): the result lies in [0,1]; 0 and 1 at the ends *)
 Lemma inv_arclen_range (fuel : nat) (s : PathSeg R) (arclen acc : R) :
-  0 < acc -> (64 <= fuel)%nat ->
-  match inv_arclen_default fuel s arclen acc with
-  | Some (t, _, _) =>
-      0 <= t <= 1 /\ (arclen <= 0 -> t = 0) /\ (0 < arclen -> seg_arclen s acc <= arclen -> t = 1)
-  | None =>
-      0 < arclen < seg_arclen s acc /\ (64 <= 1 + itp_n1_2 0%R 1%R (acc / seg_arclen s acc)%R)%Z
-  end.
+  0 < acc -> (1024 <= fuel)%nat ->
+  (0 < arclen < seg_arclen s acc -> (1 + itp_n1_2 0%R 1%R (acc / seg_arclen s acc)%R <= 1023)%Z) ->
+  exists t w br,
+    inv_arclen_default fuel s arclen acc = Some (t, w, br) /\
+    0 <= t <= 1 /\ (arclen <= 0 -> t = 0) /\ (0 < arclen -> seg_arclen s acc <= arclen -> t = 1).
 Proof.
   intros Hacc Hfuel. unfold inv_arclen_default, seg_arclen.
-  destruct (seg_arclen_vc s acc) as [total n0]. cbn [fst].
+  destruct (seg_arclen_vc s acc) as [total n0]. cbn [fst]. intros Hsmall.
   change (@fleb R RS arclen f0) with (Rleb arclen 0).
   destruct (Rleb_spec arclen 0) as [Hle|Hgt].
-  - change (@f0 R RS) with 0. split; [lra|]. split; [reflexivity | intros; lra].
+  - exists f0, 0%Z, InvZero. split; [reflexivity|]. change (@f0 R RS) with 0.
+    split; [lra|]. split; [reflexivity | intros; lra].
   - change (@fleb R RS total arclen) with (Rleb total arclen).
     destruct (Rleb_spec total arclen) as [Hge|Hlt].
-    + change (@f1 R RS) with 1. split; [lra|]. split; [intros; lra | reflexivity].
+    + exists f1, n0, InvOne. split; [reflexivity|]. change (@f1 R RS) with 1.
+      split; [lra|]. split; [intros; lra | reflexivity].
     + assert (Htot : 0 < total) by lra.
       assert (Heps : 0 < acc / total) by (apply Rdiv_lt_0_compat; assumption).
+      specialize (Hsmall ltac:(lra)).
       match goal with
       | |- context [solve_itp_st ?F ?fu ?s0 ?a ?b ?e ?n ?k ?ya ?yb] =>
-          pose proof (solve_itp_st_spec _ F fu s0 a b e n k ya yb) as Hs;
-          destruct (solve_itp_st F fu s0 a b e n k ya yb) as [[[t [[tl al] w]] iters]|]
+          destruct (solve_itp_st_spec _ F fu s0 a b e n k ya yb Heps
+                      ltac:(rs_unfold; lra) ltac:(rs_unfold; lra) ltac:(rs_unfold; lra)
+                      ltac:(unfold al_0_2; rs_unfold; cbv [Q2R Qnum Qden]; lra) ltac:(lia)
+                      Hsmall ltac:(change (@f0 R RS) with 0; change (@f1 R RS) with 1;
+                                   change (@fdiv R RS acc total) with (acc / total); lia))
+            as [x [[[tl al] w] [iters [He [Hx _]]]]]
       end.
-      * specialize (Hs Heps ltac:(rs_unfold; lra) ltac:(rs_unfold; lra) ltac:(rs_unfold; lra)
-                       ltac:(unfold al_0_2; rs_unfold; cbv [Q2R Qnum Qden]; lra) ltac:(lia) Hfuel).
-        destruct Hs as [Ht _].
-        change (@f0 R RS) with 0 in Ht. change (@f1 R RS) with 1 in Ht.
-        split; [exact Ht|]. split; intros; lra.
-      * specialize (Hs Heps ltac:(rs_unfold; lra) ltac:(rs_unfold; lra) ltac:(rs_unfold; lra)
-                       ltac:(unfold al_0_2; rs_unfold; cbv [Q2R Qnum Qden]; lra) ltac:(lia) Hfuel).
-        split; [lra | exact Hs].
+      rewrite He. exists x, (w + iters)%Z, InvItp. split; [reflexivity|].
+      change (@f0 R RS) with 0 in Hx. change (@f1 R RS) with 1 in Hx.
+      split; [exact Hx|]. split; intros; lra.
 Qed.
 
 Lemma seg_inv_arclen_range (fuel : nat) (s : PathSeg R) (arclen acc : R) :
-  0 < acc -> (64 <= fuel)%nat -> 0 < seg_arclen s acc -> 0 <= arclen <= seg_arclen s acc ->
-  match seg_inv_arclen fuel s arclen acc with
-  | Some t => 0 <= t <= 1
-  | None => (64 <= 1 + itp_n1_2 0%R 1%R (acc / seg_arclen s acc)%R)%Z
-  end.
+  0 < acc -> (1024 <= fuel)%nat -> 0 < seg_arclen s acc -> 0 <= arclen <= seg_arclen s acc ->
+  (1 + itp_n1_2 0%R 1%R (acc / seg_arclen s acc)%R <= 1023)%Z ->
+  exists t, seg_inv_arclen fuel s arclen acc = Some t /\ 0 <= t <= 1.
 Proof.
-  intros Hacc Hfuel Hpos Hr. destruct s as [l|q|c]; cbn [seg_inv_arclen].
-  - apply line_inv_arclen_range; assumption.
-  - pose proof (inv_arclen_range fuel (SegQuad q) arclen acc Hacc Hfuel) as H.
-    destruct (inv_arclen_default fuel (SegQuad q) arclen acc) as [[[t w] br]|]; [apply H | apply H].
-  - pose proof (inv_arclen_range fuel (SegCubic c) arclen acc Hacc Hfuel) as H.
-    destruct (inv_arclen_default fuel (SegCubic c) arclen acc) as [[[t w] br]|]; [apply H | apply H].
+  intros Hacc Hfuel Hpos Hr Hsmall. destruct s as [l|q|c]; cbn [seg_inv_arclen].
+  - exists (line_inv_arclen l arclen). split; [reflexivity|]. apply line_inv_arclen_range; assumption.
+  - destruct (inv_arclen_range fuel (SegQuad q) arclen acc Hacc Hfuel (fun _ => Hsmall)) as [t [w [br [He [Ht _]]]]].
+    rewrite He. exists t. split; [reflexivity | exact Ht].
+  - destruct (inv_arclen_range fuel (SegCubic c) arclen acc Hacc Hfuel (fun _ => Hsmall)) as [t [w [br [He [Ht _]]]]].
+    rewrite He. exists t. split; [reflexivity | exact Ht].
 Qed.
 
 (** ** solve_itp with a pure function (Solvers.v): bracketing and, for monotone functions, accuracy *)
@@ -775,8 +777,14 @@ Proof.
   induction fuel as [|fuel IH]; intros it a b ya yb se; cbn [itp_loop_st itp_loop].
   - destruct (@fltb R RS _ _); reflexivity.
   - destruct (@fltb R RS _ _); [|reflexivity].
+    destruct (orb _ _); [reflexivity|].
     destruct (@fltb R RS f0 _); [apply IH|]. destruct (@fltb R RS _ f0); [apply IH | reflexivity].
 Qed.
+
+Lemma solve_itp_st_pure (g : R -> R) (fuel : nat) (a b eps : R) (n0 : Z) (k1 ya yb : R) :
+  option_map (fun r => fst (fst r)) (solve_itp_st (fun (u : unit) x => (u, g x)) fuel tt a b eps n0 k1 ya yb)
+  = solve_itp fuel g a b eps n0 k1 ya yb.
+Proof. unfold solve_itp_st, solve_itp. apply itp_loop_st_pure. Qed.
 
 (** result of the loop: an exact zero, or the midpoint of a final bracket with a sign change *)
 Definition itp_result (g : R -> R) (eps a b x : R) : Prop :=
@@ -796,6 +804,8 @@ Proof.
     right. exists a, b. repeat split; try lra.
   - destruct (Rltb_spec (2 * eps) (b - a)) as [Hlt|Hge].
     + assert (Hab' : a < b) by lra.
+      destruct (Rleb_spec (/ 2 * (a + b)) a) as [Hc1|_]; [lra|].
+      destruct (Rleb_spec b (/ 2 * (a + b))) as [Hc2|_]; [lra|]. cbn [orb].
       destruct (itp_point_spec a b k1 (g a) (g b) se Hab' Hya Hyb Hk1 Hw) as [[Hxa Hxb] [Hwa Hwb]].
       set (x := itp_point a b k1 (g a) (g b) se) in *.
       assert (Hse' : se * / 2 <= eps * 2 ^ fuel) by (simpl in Hse; lra).
@@ -826,15 +836,15 @@ Proof.
 Qed.
 
 Lemma solve_itp_spec (g : R -> R) (fuel : nat) (a b eps : R) (n0 : Z) (k1 : R) :
-  0 < eps -> a < b -> g a < 0 -> 0 < g b -> 0 <= k1 -> (0 <= n0)%Z -> (64 <= fuel)%nat ->
-  (n0 + itp_n1_2 a b eps < 64)%Z ->
+  0 < eps -> a < b -> g a < 0 -> 0 < g b -> 0 <= k1 -> (0 <= n0)%Z ->
+  (n0 + itp_n1_2 a b eps <= 1023)%Z -> (n0 + itp_n1_2 a b eps <= Z.of_nat fuel)%Z ->
   exists x, solve_itp fuel g a b eps n0 k1 (g a) (g b) = Some x /\ a <= x <= b /\ itp_result g eps a b x.
 Proof.
-  intros Heps Hab Hya Hyb Hk1 Hn0 Hfuel Hsmall. unfold solve_itp.
+  intros Heps Hab Hya Hyb Hk1 Hn0 Hsmall Hfuel. unfold solve_itp.
   set (nmax := (n0 + itp_n1_2 a b eps)%Z) in *.
-  destruct (Z.leb_spec 64 nmax) as [Hbig|_]; [lia|].
   destruct (itp_n1_2_bound a b eps Heps Hab) as [Hn12 Hw].
   assert (Hnm : (0 <= nmax)%Z) by (unfold nmax; lia).
+  replace (Z.min (Z.min nmax (2 ^ 64 - 1)) 1023) with nmax by lia.
   change (@fmul R RS eps (@fpowi R RS f2 nmax)) with (eps * powerRZ 2 nmax).
   assert (Hw' : b - a <= 2 * (eps * powerRZ 2 nmax)).
   { assert (Hp : powerRZ 2 (itp_n1_2 a b eps) <= powerRZ 2 nmax) by (apply powerRZ_2_mono; unfold nmax; lia).
@@ -1008,8 +1018,8 @@ Lemma P_C03_arclen_rec_leaves : forall (rem : nat) (c : CubicBez R) (acc : R),
 Proof. intros. split; [apply arclen_leaves_bound | apply arclen_rec_calls_leaves]. Qed.
 
 Lemma P_C03_itp_monotone : forall (g : R -> R) (fuel : nat) (a b eps : R) (n0 : Z) (k1 z : R),
-  0 < eps -> a < b -> g a < 0 -> 0 < g b -> 0 <= k1 -> (0 <= n0)%Z -> (64 <= fuel)%nat ->
-  (n0 + itp_n1_2 a b eps < 64)%Z ->
+  0 < eps -> a < b -> g a < 0 -> 0 < g b -> 0 <= k1 -> (0 <= n0)%Z ->
+  (n0 + itp_n1_2 a b eps <= 1023)%Z -> (n0 + itp_n1_2 a b eps <= Z.of_nat fuel)%Z ->
   exists x, solve_itp fuel g a b eps n0 k1 (g a) (g b) = Some x /\ a <= x <= b /\
             itp_result g eps a b x /\
             ((forall u v, u <= v -> g u <= g v) -> g z = 0 -> g x = 0 \/ Rabs (x - z) <= eps).
@@ -1034,4 +1044,127 @@ Proof.
   - intros u v Huv; unfold g; lra.
   - unfold g; lra.
   - unfold g in H0. replace (x - / 3) with 0 by lra. rewrite Rabs_R0. lra.
+Qed.
+
+(** ** the quantity [est] the decision is based on: the 8-point rule applied to |B''|^2 / (4 |B'|^2),
+    i.e. est ~ (1/2) * integral over [0,1] of |B''|^2 / |B'|^2 (with x / 0 = 0 at a zero of B') *)
+Definition nsq (p : Point R) : R := px p * px p + py p * py p.
+Definition cubic_deriv2_at (c : CubicBez R) (t : R) : Point R := line_eval (quad_deriv (cubic_deriv c)) t.
+
+Lemma est_term (c : CubicBez R) (x : R) :
+  let d := arclen_setup c in
+  let t := (1 + x) / 2 in
+  v_hypot2 (v_add (a_dm1 d) (v_scale (a_dm2 d) (2 * x)))
+  / v_hypot2 (v_add (v_add (a_dm d) (v_scale (a_dm1 d) x)) (v_scale (a_dm2 d) (x * x)))
+  = nsq (cubic_deriv2_at c t) / (4 * nsq (quad_eval (cubic_deriv c) t)).
+Proof.
+  intros d t. subst d t.
+  assert (Hn : v_hypot2 (v_add (a_dm1 (arclen_setup c)) (v_scale (a_dm2 (arclen_setup c)) (2 * x)))
+               = nsq (cubic_deriv2_at c ((1 + x) / 2)) / 36).
+  { destruct c as [[x0 y0] [x1 y1] [x2 y2] [x3 y3]]. unfold nsq, cubic_deriv2_at. arc_unfold. field. }
+  assert (Hd : v_hypot2 (v_add (v_add (a_dm (arclen_setup c)) (v_scale (a_dm1 (arclen_setup c)) x))
+                               (v_scale (a_dm2 (arclen_setup c)) (x * x)))
+               = nsq (quad_eval (cubic_deriv c) ((1 + x) / 2)) / 9).
+  { destruct c as [[x0 y0] [x1 y1] [x2 y2] [x3 y3]]. unfold nsq. arc_unfold. field. }
+  rewrite Hn, Hd.
+  set (A := nsq (cubic_deriv2_at c ((1 + x) / 2))). set (D := nsq (quad_eval (cubic_deriv c) ((1 + x) / 2))).
+  destruct (Req_dec D 0) as [H0|Hne].
+  - rewrite H0. unfold Rdiv. rewrite Rmult_0_l, Rmult_0_r, Rinv_0. ring.
+  - field. exact Hne.
+Qed.
+
+Lemma arclen_est_is_rule (c : CubicBez R) :
+  arclen_est (arclen_setup c)
+  = Rsum (map (fun wx => fst wx * (nsq (cubic_deriv2_at c ((1 + snd wx) / 2))
+                                   / (4 * nsq (quad_eval (cubic_deriv c) ((1 + snd wx) / 2))))) gl8).
+Proof.
+  unfold arclen_est. rewrite sum_f_R. apply Rsum_map_ext. intros [w x] _. cbn [fst snd].
+  change (@fmul R RS w ?z) with (w * z). f_equal. apply (est_term c x).
+Qed.
+
+(** ** the budget theorem with the hypothesis est_conservative stated globally *)
+
+(** "the estimate is conservative": for every cubic and every rule, the true error of the rule against
+    [L] is at most the estimate the code computes for it (+ rho * L) *)
+Definition est_conservative (L : CubicBez R -> R) (rho : R) : Prop :=
+  forall (c : CubicBez R) (r : rule),
+    Rabs (arclen_leaf (arclen_setup c) r - L c) <= rule_est (arclen_setup c) r + rho * L c.
+
+(** every leaf of the recursion was admitted by its estimate (the depth cap 20 forced nothing) *)
+Fixpoint cap_not_hit (rem : nat) (c : CubicBez R) (acc : R) : Prop :=
+  let d := arclen_setup c in
+  match arclen_choose d acc (match rem with O => true | S _ => false end) with
+  | RSplit =>
+      match rem with
+      | O => False
+      | S rem' => cap_not_hit rem' (fst (cubic_subdivide c)) (acc / 2) /\
+                  cap_not_hit rem' (snd (cubic_subdivide c)) (acc / 2)
+      end
+  | r => rule_est d r < acc
+  end.
+
+Lemma cap_not_hit_eq (rem : nat) (c : CubicBez R) (acc : R) :
+  cap_not_hit rem c acc =
+  let d := arclen_setup c in
+  match arclen_choose d acc (match rem with O => true | S _ => false end) with
+  | RSplit =>
+      match rem with
+      | O => False
+      | S rem' => cap_not_hit rem' (fst (cubic_subdivide c)) (acc / 2) /\
+                  cap_not_hit rem' (snd (cubic_subdivide c)) (acc / 2)
+      end
+  | r => rule_est d r < acc
+  end.
+Proof. destruct rem; reflexivity. Qed.
+
+Lemma est_conservative_leaves (L : CubicBez R -> R) (rho : R) :
+  est_conservative L rho ->
+  forall rem c acc, cap_not_hit rem c acc -> leaves_conservative L rho rem c acc.
+Proof.
+  intros Hec. induction rem as [|rem IH]; intros c acc Hc;
+    rewrite leaves_conservative_eq; rewrite cap_not_hit_eq in Hc; cbv zeta in *.
+  - destruct (arclen_choose _ _ _); try (split; [exact Hc | apply Hec]). contradiction.
+  - destruct (arclen_choose _ _ _); try (split; [exact Hc | apply Hec]).
+    destruct Hc as [Ha Hb]. split; apply IH; assumption.
+Qed.
+
+Lemma arclen_rec_budget_est_conservative (L : CubicBez R -> R) (rho : R) :
+  additive_on_subdivide L -> est_conservative L rho ->
+  forall (rem : nat) (c : CubicBez R) (acc : R),
+    cap_not_hit rem c acc -> Rabs (arclen_rec rem c acc - L c) <= acc + rho * L c.
+Proof.
+  intros Hadd Hec rem c acc Hc. apply arclen_rec_budget; [exact Hadd|].
+  apply est_conservative_leaves; assumption.
+Qed.
+
+Lemma straight_cubic_choose (acc : R) :
+  0 < acc ->
+  arclen_choose (arclen_setup straight_cubic) acc false = R8 /\ rule_est (arclen_setup straight_cubic) R8 = 0.
+Proof.
+  intros Hacc. destruct straight_cubic_setup as [H1 H2].
+  pose proof (est_zero_of_straight _ H1 H2) as Hest.
+  assert (He8 : est8_error (arclen_setup straight_cubic) 0 = 0).
+  { unfold est8_error. rs_unfold. simpl powerRZ. rewrite Rmin_left; [ring|].
+    unfold al_2_5em6, al_3em2. rs_unfold. cbv [Q2R Qnum Qden]. lra. }
+  split.
+  - unfold arclen_choose. rewrite Hest, He8. change (@fltb R RS 0 acc) with (Rltb 0 acc).
+    destruct (Rltb_spec 0 acc); [reflexivity | lra].
+  - unfold rule_est. rewrite Hest. exact He8.
+Qed.
+
+(** non-vacuity of [cap_not_hit] *)
+Lemma cap_not_hit_straight (acc : R) : 0 < acc -> cap_not_hit 20 straight_cubic acc.
+Proof.
+  intros Hacc. destruct (straight_cubic_choose acc Hacc) as [Hch He].
+  rewrite cap_not_hit_eq. cbv zeta. rewrite Hch, He. exact Hacc.
+Qed.
+
+(** non-vacuity of the iteration-budget hypothesis: epsilon = 1/2 on [0,1] gives n1_2 = 0 *)
+Lemma itp_budget_half : (1 + itp_n1_2 0%R 1%R (/ 2)%R <= 1023)%Z.
+Proof.
+  unfold itp_n1_2, sv_log2. rs_unfold.
+  replace ((1 - 0) / / 2) with 2 by field.
+  replace (ln 2 / ln 2) with (IZR 1) by (pose proof ln2_pos; field; lra).
+  rewrite Raux.Zceil_IZR. replace (IZR 1 - 1) with 0 by lra.
+  rewrite Rmax_left by lra. change 0 with (IZR 0). rewrite Raux.Ztrunc_IZR. simpl. lia.
 Qed.
